@@ -36,6 +36,177 @@ def check(ctx, R):
 from ..util import lin_ast as _lin, lin_add as _lin_add   # noqa: E402
 
 
+
+class _ReadGhosts(object):
+    """Ghost counters for the read-exactly proof:  G$ = bytes returned by the transport so far,  A$ = length of the prefix of the
+    accumulator known to be exactly those bytes in order."""
+    ghosts = ("G$", "A$")
+    ghost_init = {"G$": 0, "A$": 0}
+
+    def __init__(self, ctx, f, read_node, chunk, acc, list_mode):
+        self.ctx, self.f, self.read_node, self.chunk, self.acc, self.list_mode = ctx, f, read_node, chunk, acc, list_mode
+        self.df = ctx.df(f)
+        self.accvar = ("sum:" if list_mode else "len:") + acc
+        self.fill_nodes = []
+        self.notes = []
+
+    def _is_chunk(self, node, e):
+        e = unawait(e)
+        if not (isinstance(e, ast.Name) and e.id == self.chunk):
+            return False
+        ds = self.df.reaching(node, self.chunk)
+        return len(ds) == 1 and next(iter(ds)).node is self.read_node
+
+    def after(self, node, K, pre, post):
+        if node is self.read_node:
+            K.assign(post, "G$", ({"G$": 1, "len:" + self.chunk: 1}, 0))
+            return
+        a = node.ast
+        if node.kind != "stmt":
+            return
+        touches = any(d.var == self.acc and d.kind != "base" for d in self.df.node_defs.get(node, []))
+        if not touches:
+            return
+        L = "len:" + self.chunk
+        appended = None
+        if isinstance(a, ast.AugAssign) and isinstance(a.op, ast.Add) and varkey(a.target) == self.acc and not self.list_mode:
+            appended = a.value
+        elif isinstance(a, ast.Assign) and len(a.targets) == 1 and varkey(a.targets[0]) == self.acc and not self.list_mode:
+            v = unawait(a.value)
+            if isinstance(v, ast.BinOp) and isinstance(v.op, ast.Add) and varkey(unawait(v.left)) == self.acc:
+                appended = v.right
+            elif K.length_of(v) == ({}, 0) or (isinstance(v, ast.List) and not v.elts):
+                K.assign(post, "A$", ({}, 0))            # (re)initialised empty
+                return
+        elif isinstance(a, ast.Assign) and len(a.targets) == 1 and varkey(a.targets[0]) == self.acc and self.list_mode:
+            v = unawait(a.value)
+            if isinstance(v, ast.List) and not v.elts:
+                K.assign(post, "A$", ({}, 0))
+                return
+        elif isinstance(a, ast.Expr) and isinstance(unawait(a.value), ast.Call):
+            c = unawait(a.value)
+            if isinstance(c.func, ast.Attribute) and varkey(c.func.value) == self.acc and len(c.args) == 1 and not c.keywords \
+                    and c.func.attr == ("append" if self.list_mode else "extend"):
+                appended = c.args[0]
+        elif isinstance(a, ast.Assign) and len(a.targets) == 1 and isinstance(a.targets[0], ast.Subscript) and varkey(a.targets[0].value) == self.acc \
+                and isinstance(a.targets[0].slice, ast.Slice) and a.targets[0].slice.step is None and not self.list_mode:
+            # acc[lo:hi] = chunk with lo == A$ and hi - lo == len(chunk): the chunk lands right after what is already in place
+            sl = a.targets[0].slice
+            lo = K.lin(sl.lower) if sl.lower is not None else None
+            hi = K.lin(sl.upper) if sl.upper is not None else None
+            if lo is not None and hi is not None and self._is_chunk(node, a.value) \
+                    and K.entails_state(pre, _kadd(lo, ({"A$": 1}, 0), -1)) and K.entails_state(pre, _kadd(_kadd(hi, lo, -1), ({L: 1}, 0), -1)):
+                K.assign(post, "A$", ({"A$": 1, L: 1}, 0))
+                self.fill_nodes.append(node)
+                return
+        if appended is not None and self._is_chunk(node, appended) and K.entails_state(pre, ({self.accvar: 1, "A$": -1}, 0)):
+            K.assign(post, "A$", ({"A$": 1, L: 1}, 0))
+            return
+        # bytearray(n) as a pre-sized buffer: nothing validated yet
+        if isinstance(a, ast.Assign) and len(a.targets) == 1 and varkey(a.targets[0]) == self.acc and not any(node is x for x in self.fill_nodes):
+            K.assign(post, "A$", ({}, 0)) if not node.loops else K.havoc(post, "A$")
+            return
+        K.havoc(post, "A$")
+
+
+def _kadd(a, b, k=1):
+    from ..karr import lin_add
+    return lin_add(a, b, k)
+
+
+def _read_exact_affine(ctx, roles):
+    """Proof of the read-exactly invariant by affine-equality abstract interpretation (sa/karr.py).  With G$ the number of bytes
+    the transport has returned so far and A$ the validated prefix of the accumulator:
+      (1) at the bulk_read call, the size requested equals  <length asked for> - G$;
+      (2) the loop is left normally only on an edge that says  <length asked for> - G$ <= 0  (or == 0);
+      (3) at every return,  A$ == G$  and the value returned is the accumulator, whose length is A$ (or, for a pre-sized
+          buffer filled in place, whose length is the length asked for).
+    -> (True, description) or (False, reason)."""
+    from ..karr import Karr
+    from .c06 import eval_dump
+    f = roles.read_exact
+    g = ctx.cfg(f)
+    df = ctx.df(f)
+    sites = [(n, c) for n in g.live_nodes() for c in node_calls(n) if call_attr(c) == "bulk_read"]
+    if len(sites) != 1:
+        return False, "not exactly one bulk_read"
+    n, c = sites[0]
+    st = n.ast
+    if not n.loops or not (n.kind == "stmt" and isinstance(st, ast.Assign) and len(st.targets) == 1 and isinstance(st.targets[0], ast.Name) and unawait(st.value) is c) or not c.args:
+        return False, "read not bound to a variable inside a loop"
+    if len(f.params) < 2:
+        return False, "no length parameter"
+    P0 = "@" + f.params[1]
+    head = n.loops[-1]
+    chunk = st.targets[0].id
+    for m in g.live_nodes():
+        if m is not n and any(d.var == chunk and d.kind != "base" for d in df.node_defs.get(m, [])):
+            return False, "the chunk is modified"
+    rets = [rn for rn in g.live_nodes() if rn.kind == "stmt" and isinstance(rn.ast, ast.Return)]
+    acc, list_mode = None, False
+    for rn in rets:
+        v = unawait(rn.ast.value) if rn.ast.value is not None else None
+        lm = False
+        if isinstance(v, ast.Call) and isinstance(v.func, ast.Name) and v.func.id in ("bytes", "bytearray") and len(v.args) == 1 and not v.keywords:
+            v = unawait(v.args[0])
+        if isinstance(v, ast.Call) and isinstance(v.func, ast.Attribute) and v.func.attr == "join" and len(v.args) == 1 and isinstance(v.func.value, ast.Constant) and v.func.value.value == b"":
+            v = unawait(v.args[0])
+            lm = True
+        k = varkey(v) if v is not None else None
+        if k is None or "." in k or (acc is not None and (acc, list_mode) != (k, lm)):
+            return False, "returns something other than one accumulator"
+        acc, list_mode = k, lm
+    if acc is None or acc in f.params:
+        return False, "no accumulator"
+    H = _ReadGhosts(ctx, f, n, chunk, acc, list_mode)
+    K = Karr(ctx, f, hooks=H)
+    if H.accvar not in K.idx or ("len:" + chunk) not in K.idx:
+        return False, "accumulator / chunk lengths are not tracked"
+    K.run()
+    want = ({P0: 1, "G$": -1}, 0)                      # outstanding = length asked for - bytes received
+    req = K.lin(c.args[0])
+    if req is None or not K.entails(n, _kadd(req, want, -1)):
+        return False, "the size requested is not provably the outstanding byte count (state at the read: %s)" % K.describe(n)
+    for (m, d, l) in loop_exit_edges(g, head):
+        if l == "exc":
+            continue
+        if K.entails_edge(m, l, want):
+            continue
+        ok = False
+        for fa in set(df.facts(m)) | df.edge_facts(m, l):
+            if fa[0][0] == "lt" and fa[1] is False:
+                try:
+                    a_, b_ = K.lin(eval_dump(fa[0][1])), K.lin(eval_dump(fa[0][2]))
+                except Exception:   # noqa
+                    continue
+                if a_ is not None and b_ is not None and K.entails_edge(m, l, _kadd(_kadd(b_, a_, -1), want, -1)):
+                    ok = True
+        if not ok:
+            return False, "the loop can be left at `%s` while bytes are outstanding" % (norm_stmt(m.ast) if m.ast is not None else m.kind)
+    for rn in rets:
+        if not K.entails(rn, ({"A$": 1, "G$": -1}, 0)):
+            return False, "at `%s` the accumulator is not provably everything the transport returned, in order (state: %s)" % (norm_stmt(rn.ast), K.describe(rn))
+        if H.fill_nodes:
+            if not K.entails(rn, ({"len:" + acc: 1, P0: -1}, 0)):
+                return False, "pre-sized buffer is not of the length asked for"
+        elif not K.entails(rn, ({H.accvar: 1, "A$": -1}, 0)):
+            return False, "accumulator holds more than the validated bytes"
+    # a pre-sized buffer is filled at the right place only while the cursor is inside it: the store is guarded by outstanding > 0
+    for fn_ in H.fill_nodes:
+        inside_ok = False
+        for fa in df.facts(fn_):
+            if fa[0][0] == "lt" and fa[1] is True:
+                try:
+                    a_, b_ = K.lin(eval_dump(fa[0][1])), K.lin(eval_dump(fa[0][2]))
+                except Exception:   # noqa
+                    continue
+                if a_ is not None and b_ is not None and K.entails(fn_, _kadd(_kadd(b_, a_, -1), ({"len:" + acc: 1, "A$": -1}, 0), -1)):
+                    inside_ok = True
+        if not inside_ok:
+            return False, "in-place store is not guarded by room left in the buffer"
+    return True, "affine invariants: request == %s - received at the read; exits only when nothing is outstanding; the value returned is exactly the %s chunks in order" % (f.params[1], "joined" if list_mode else "appended")
+
+
 def _read_exact(ctx, R, roles, T):
     """The read-exactly primitive, as an inductive linear invariant: with `req` the size asked of the transport and `acc` the
     accumulator,  req + len(acc) == <requested length>  holds when the loop is entered and is preserved by every iteration
@@ -47,6 +218,10 @@ def _read_exact(ctx, R, roles, T):
     q = f.qualname
     sites = [(n, c) for n in g.live_nodes() for c in node_calls(n) if call_attr(c) == "bulk_read"]
     R.count("INV-read[%s]" % roles.tag, len(sites), 1)
+    proved, how = _read_exact_affine(ctx, roles)
+    if proved:
+        R.ok("INV-read", q + "|affine", how, f.loc())
+        return
     if len(sites) != 1:
         R.fail("INV-read", q + "|sites", "read-exactly primitive must contain exactly one bulk_read call, found %d" % len(sites), f.loc())
         return
